@@ -27,6 +27,7 @@ EXPLANATION = (
     "catch-all), must-pass-through of body clearing and decorator removal (T2), guard dominance for TypeScript-private "
     "members (T5) and a containment rule tying every missing-type test to mark_diagnostic (HIR containment)."
 )
+EXPLANATION += " " + 'Plus: every decorator strip is unskippable within its owning arm (T2), identifier-chain test inspects computed keys (T8), sub-expression verdicts of the leavable test are only combined with `&&`.'
 NOT_DECIDED = "that the emitted text, re-parsed, has the stated shape"
 ASSUMPTIONS = ["deno_ast/swc emit prints the transformed AST faithfully"]
 
